@@ -895,7 +895,7 @@ func init() {
 	})
 	vRegister(&vCheck{
 		ID: "C09", Level: "model_checking", Engine: "histmc",
-		Rule:        "BFS over multi-session histories (AddWithID | Flush | Search)* CloseReopen ... with up to 3 (quick) / 4 (thorough) sessions, reopening the same in-memory directory with FRESHLY constructed templates, for memtable limits {1 doc, 2 docs, unlimited} x vector template {flat, hnsw, trained ivf} x {with, without text+metadata}; after every transition every document added before the last Flush/Close that returned nil must be found by the vector, text and metadata probes, in the session that made it durable and in every later one; from the file-system log: no segment file name *_NNNNNN.bin.gz is ever created twice (identifiers never reused); background compaction checks / ticks (threshold not reached) are part of the alphabet; plus the identifier sweep: for EVERY N in 1..1100 (12000 thorough) a directory holding a valid segment N is opened, flushed to, closed, reopened and flushed to again: new identifiers above every existing one, existing files byte-identical. Non-trivial = distinct (config, history, query) with a durable document, and distinct segment-file creations.",
+		Rule:        "BFS over multi-session histories (AddWithID | Flush | Search)* CloseReopen ... with up to 3 (quick) / 4 (thorough) sessions, reopening the same in-memory directory with FRESHLY constructed templates, for memtable limits {1 doc, 2 docs, unlimited} x vector template {flat, hnsw, trained ivf} x {with, without text+metadata}; after every transition every document added before the last Flush/Close that returned nil must be found by the vector, text and metadata probes, in the session that made it durable and in every later one; from the file-system log: no segment file name *_NNNNNN.bin.gz is ever created twice (identifiers never reused); background compaction checks / ticks (threshold not reached) are part of the alphabet; plus the identifier sweep: for EVERY N in 1..1100 (12000 thorough) a directory holding a valid segment N is opened, flushed to, closed, reopened and flushed to again: new identifiers above every existing one, existing files byte-identical. Non-trivial = distinct (config, history, query) with a durable document, and distinct segment-file creations. Configuration ivfalt: every session trains its own IVF template (same sample in another order / another sample); with IVF templates probe 8 asks for a stored vector at default probing.",
 		Assumptions: []string{"process death is modelled by reopening the directory image (everything handed to the OS survives)", "known shared-template defect: with >= 2 segments on disk all of them are decoded into the same template objects and the last one wins; identified by that witness"},
 		Shards: func(tier string) []vShard {
 			sh := vStoreShards("c09", tier)
